@@ -425,11 +425,12 @@ def _reference_failures(n, seed, limit=3):
     for i in range(n):
         npts = int(rng.integers(2, 120))
         kind = i % 3
+        # coordinates may be negative (times relative to a later reference), cross zero, or be large: the series starts at an offset
         if kind == 0:
-            x = np.cumsum(rng.uniform(0.1, 2.0, npts))
+            x = np.cumsum(rng.uniform(0.1, 2.0, npts)) + float(rng.choice([0.0, -1.0, -0.5, 1e6, -1e6]) * rng.uniform(0, 2 * npts))
             xv = sc.array(dims=['time'], values=x, unit='s')
         elif kind == 1:
-            x = np.cumsum(rng.integers(1, 5, npts)).astype('int64')
+            x = (np.cumsum(rng.integers(1, 5, npts)) + int(rng.choice([0, -1, 1000]) * rng.integers(0, 3 * npts))).astype('int64')
             xv = sc.array(dims=['time'], values=x, unit='s')
         else:
             x = np.cumsum(rng.integers(1, 5, npts)).astype('int64')
